@@ -413,7 +413,7 @@ func (d *GDoc) render() string {
 // ---------------------------------------------------------------------------------------
 // damage: what storage and transfer faults make out of a file
 
-var damageKinds = []string{"bitflip", "drop", "insert", "truncate", "zero", "stutter", "lonecr", "crlf_partial", "latin1", "randblock", "dup_line", "splice", "bignum", "longline"}
+var damageKinds = []string{"bitflip", "drop", "insert", "truncate", "zero", "stutter", "lonecr", "crlf_partial", "latin1", "randblock", "dup_line", "splice", "bignum", "longline", "ctrl_at_boundary"}
 
 func damage(r *Rng, s string, kind string) string {
 	b := []byte(s)
@@ -545,6 +545,18 @@ func damage(r *Rng, s string, kind string) string {
 			}
 		}
 		b = []byte(s2)
+	case "ctrl_at_boundary":
+		// a control / escape / zero-width sequence right at a token boundary: before a quote,
+		// a blank, a line end, or at the very end of the file
+		var cands []int
+		for i := 0; i <= len(b); i++ {
+			if i == len(b) || b[i] == '"' || b[i] == '\'' || b[i] == ' ' || b[i] == '\n' || b[i] == '\r' || b[i] == '\t' || b[i] == '=' {
+				cands = append(cands, i)
+			}
+		}
+		i := cands[r.Intn(len(cands))]
+		ins := r.Pick([]string{"\x1b[31", "\x1b[1;", "\x1b[", "\x1b[0m", "\x1b", "\x00", "\x7f", "\u200b", "\u0301", "\ufeff", "\x1b[38;5;1", "\u202e"})
+		b = append(b[:i], append([]byte(ins), b[i:]...)...)
 	case "longline":
 		// a very long line: a run of junk (or of a repeated fragment) lands inside a line
 		i := pos()
